@@ -287,12 +287,16 @@ func observe(c codec, data []byte, sk srcKind, sched []int, rng *rand.Rand) (o o
 	}()
 	zr := c.New(src)
 	i, idle := 0, 0
+	var pool []byte // one buffer for all calls (a fresh 1 MiB buffer per call dominates the run time)
 	for {
 		n := sched[i]
 		if i+1 < len(sched) {
 			i++
 		}
-		buf := make([]byte, n)
+		if cap(pool) < n {
+			pool = make([]byte, n)
+		}
+		buf := pool[:n]
 		cnt, err := zr.Read(buf)
 		if cnt < 0 || cnt > n {
 			o.Bad = fmt.Sprintf("Read returned %d for len %d", cnt, n)
